@@ -16,7 +16,7 @@ warnings.simplefilter("ignore")
 WT = {"relative": 0, "clip": 1, "given": 2, "pack": 3, "weight": 4}
 AT = {"left": 0, "center": 1, "right": 2, "relative": 3}
 VT = {"top": 0, "middle": 1, "bottom": 2, "relative": 3}
-CK = {"given": 0, "pack": 1, "packflow": 1, "weight": 2}
+CK = {"given": 0, "pack": 1, "packflow": 1, "packfixed": 1, "weight": 2}
 ERRC = {"IndexError": 1, "ValueError": 2, "TypeError": 3, "WidgetError": 4, "ZeroDivisionError": 10}
 ERRN = {1: "IndexError", 2: "ValueError", 3: "TypeError", 4: "WidgetError", 10: "ZeroDivisionError"}
 
@@ -42,12 +42,15 @@ def U():
         _selectable = False
         ignore_focus = True
 
-        def __init__(self, sizing, fixed=(1, 1), nat=None, rows=1, log=None, tag=None):
+        def __init__(self, sizing, fixed=(1, 1), nat=None, rows=1, log=None, tag=None, rows_narrow=None, thr=None):
             super().__init__()
             self._sz = frozenset(sizing)
             self.fixed = fixed
             self.nat = nat
             self.nrows = rows
+            self.nrows_narrow = rows if rows_narrow is None else rows_narrow    # rows((w,)) for w < thr
+            self.thr = thr
+            self.by_id = False
             self.log = log if log is not None else []
             self.tag = tag
             self.asked = []
@@ -56,10 +59,13 @@ def U():
             return self._sz
 
         def rows(self, size, focus=False):
+            self.asked.append(("rows", tuple(size)))
+            if self.thr is not None and size and size[0] < self.thr:
+                return self.nrows_narrow
             return self.nrows
 
         def pack(self, size=(), focus=False):
-            self.asked.append(tuple(size))
+            self.asked.append(("pack", tuple(size)))
             if not size:
                 return self.fixed
             if len(size) == 1:
@@ -68,7 +74,7 @@ def U():
             return tuple(size)
 
         def render(self, size, focus=False):
-            self.log.append((self.tag, tuple(size)))
+            self.log.append((id(self) if self.by_id else self.tag, tuple(size)))
             if not size:
                 c, r = self.fixed
             elif len(size) == 1:
@@ -144,7 +150,8 @@ class C19(core.Check):
                  "GridFlow; extracted-model correspondence; property-text oracle with exact rationals")
     level_text = ""     # filled in below (after the class) to keep this block readable
     level_note = ""
-    rule = ("cases = one call of int_scale / calculate_left_right_padding / calculate_top_bottom_filler / "
+    rule = ("cases = multi-step histories on ONE Columns / Pile / GridFlow object (layout, move focus, change a packed child's size, "
+            "replace/append/remove options, setters, layout again at the same size: every layout judged like a fresh one) and one call of int_scale / calculate_left_right_padding / calculate_top_bottom_filler / "
             "Columns.column_widths+get_column_sizes+render / Pile.get_item_rows+render (box) / Padding.padding_values+render / "
             "Filler.filler_values+render / Overlay.calculate_padding_filler+top_w_size / GridFlow.generate_display_widget on "
             "generated options; Columns exhaustive over small option lists x maxcol 0..12 x dividechars 0..2 x min_width 0..3 x "
@@ -195,25 +202,31 @@ class C19(core.Check):
                            c["top"], c["bottom"])
         return {"tb": [t, b]}
 
-    def build_children(self, opts, log):
+    def col_child(self, k, a, log, tag):
+        """(contents entry for the Columns constructor, the child) for one option"""
         Spy = U()["Spy"]
-        out = []
-        for i, (k, a) in enumerate(opts):
-            if k == "given":
-                out.append(("given", a, Spy(("box", "flow"), log=log, tag=i)))
-            elif k == "pack":
-                out.append(("pack", Spy(("fixed",), fixed=(a, 1), log=log, tag=i)))
-            elif k == "packflow":
-                out.append(("pack", Spy(("flow",), nat=a, log=log, tag=i)))
-            else:
-                out.append(("weight", a, Spy(("box", "flow"), log=log, tag=i)))
-        return out
+        if k == "given":
+            w = Spy(("box", "flow"), log=log, tag=tag)
+            return ("given", a, w), w
+        if k == "pack":
+            w = Spy(("fixed",), fixed=(a, 1), log=log, tag=tag)
+            return ("pack", w), w
+        if k == "packflow":
+            w = Spy(("flow",), nat=a, log=log, tag=tag)
+            return ("pack", w), w
+        w = Spy(("box", "flow"), log=log, tag=tag)
+        return ("weight", a, w), w
 
-    def impl_cols(self, c):
-        urwid = U()["urwid"]
-        log = []
-        cols = urwid.Columns(self.build_children(c["opts"], log), dividechars=c["div"], min_width=c["minw"])
-        cols.focus_position = c["focus"]
+    def col_child_id(self, k, a, log, tag):
+        entry, w = self.col_child(k, a, log, tag)
+        w.by_id = True
+        return entry, w
+
+    def build_children(self, opts, log):
+        return [self.col_child_id(k, a, log, i)[0] for i, (k, a) in enumerate(opts)]
+
+    def observe_cols(self, cols, c, log):
+        """One layout of an existing Columns at c['maxcol']; c describes the configuration in force."""
         size = (c["maxcol"],)
         widths = list(cols.column_widths(size, True))
         w2, _h, args = cols.get_column_sizes(size, True)
@@ -222,37 +235,54 @@ class C19(core.Check):
         rendered = None
         if c["maxcol"] >= 1:
             canv = cols.render(size, True)
-            rendered = [[t, (s[0] if s else self.pack_width(c, t))] for t, s in log]
+            tags = {id(w): i for i, (w, _o) in enumerate(cols.contents)}
+            rendered = [[tags.get(wid, -1), (sz[0] if sz else self.pack_width(c, tags.get(wid, -1)))] for wid, sz in log]
             agree = agree and canv.cols() == c["maxcol"]
         return {"widths": widths, "rendered": rendered, "agree": bool(agree)}
+
+    def impl_cols(self, c):
+        urwid = U()["urwid"]
+        log = []
+        cols = urwid.Columns(self.build_children(c["opts"], log), dividechars=c["div"], min_width=c["minw"])
+        cols.focus_position = c["focus"]
+        return self.observe_cols(cols, c, log)
 
     @staticmethod
     def pack_width(c, i):
         return c["opts"][i][1]
 
-    def impl_pile(self, c):
-        urwid = U()["urwid"]
+    def pile_child(self, k, a, log, tag):
         Spy = U()["Spy"]
-        log = []
-        items = []
-        for i, (k, a) in enumerate(c["opts"]):
-            if k == "given":
-                items.append(("given", a, Spy(("box",), log=log, tag=i)))
-            elif k == "pack":
-                items.append(("pack", Spy(("flow",), rows=a, log=log, tag=i)))
-            else:
-                items.append(("weight", a, Spy(("box",), log=log, tag=i)))
-        pile = urwid.Pile(items)
-        if items:
-            pile.focus_position = c["focus"]
+        if k == "given":
+            w = Spy(("box",), log=log, tag=tag)
+            return ("given", a, w), w
+        if k == "pack":
+            w = Spy(("flow",), rows=a, log=log, tag=tag)
+            return ("pack", w), w
+        if k == "packfixed":      # fixed-only child: measured with pack(())[1]
+            w = Spy(("fixed",), fixed=(3, a), rows=-7, log=log, tag=tag)
+            return ("pack", w), w
+        w = Spy(("box",), log=log, tag=tag)
+        return ("weight", a, w), w
+
+    def observe_pile(self, pile, c):
         size = (c["maxcol"], c["maxrow"])
         rows = list(pile.get_item_rows(size, True))
         _w, heights, args = pile.get_rows_sizes(size, True)
         agree = list(heights) == rows
         for (k, a), arg, r in zip(c["opts"], args, rows):
-            if k != "pack" and tuple(arg) != (c["maxcol"], r):
+            if k in ("given", "weight") and tuple(arg) != (c["maxcol"], r):
                 agree = False
         return {"rows": rows, "agree": bool(agree)}
+
+    def impl_pile(self, c):
+        urwid = U()["urwid"]
+        log = []
+        items = [self.pile_child(k, a, log, i)[0] for i, (k, a) in enumerate(c["opts"])]
+        pile = urwid.Pile(items)
+        if items:
+            pile.focus_position = c["focus"]
+        return self.observe_pile(pile, c)
 
     def impl_pad(self, c):
         urwid = U()["urwid"]
@@ -301,7 +331,8 @@ class C19(core.Check):
     def impl_ov(self, c):
         urwid = U()["urwid"]
         Spy = U()["Spy"]
-        top_w = Spy(("box", "flow", "fixed"), fixed=(c["pw"], c["ph"]), rows=c["fr"])
+        top_w = Spy(("box", "flow", "fixed"), fixed=(c["pw"], c["ph"]), rows=c["fr"], rows_narrow=c.get("frn", c["fr"]),
+                    thr=c.get("thr", 0))
         bottom_w = urwid.SolidFill(" ")
         ov = urwid.Overlay(top_w, bottom_w, align_spec(c["at"], c["aa"]), size_spec(c["wt"], c["wa"]),
                            align_spec(c["vt"], c["va"]), size_spec(c["ht"], c["ha"]),
@@ -310,18 +341,12 @@ class C19(core.Check):
         size = (c["maxcol"], c["maxrow"])
         l, r, t, b = ov.calculate_padding_filler(size, False)
         tws = ov.top_w_size(size, l, r, t, b)
-        return {"lrtb": [l, r, t, b], "tws": list(tws)}
+        asked = [a[1][0] for a in top_w.asked if a[0] == "rows" and a[1]]
+        return {"lrtb": [l, r, t, b], "tws": list(tws), "rows_asked_at": asked[-1] if asked else None}
 
-    def impl_grid(self, c):
+    def observe_grid(self, gf, maxcol, cached):
         urwid = U()["urwid"]
-        Spy = U()["Spy"]
-        cells = [Spy(("flow",), tag=i) for i in range(len(c["cells"]))]
-        gf = urwid.GridFlow([], c["cw"], c["hsep"], c["vsep"], "left")
-        for w, width in zip(cells, c["cells"]):
-            gf.contents.append((w, gf.options("given", width)))
-        if cells:
-            gf.focus_position = c["focus"]
-        d = gf.generate_display_widget((c["maxcol"],))
+        d = gf.get_display_widget((maxcol,)) if cached else gf.generate_display_widget((maxcol,))
         rows = []
         if isinstance(d, urwid.Pile):
             for w, _o in d.contents:
@@ -335,6 +360,209 @@ class C19(core.Check):
                     pw = w.width if isinstance(w.width, int) else -999
                     rows.append({"pad": pw, "cells": row, "hsep": colw.dividechars})
         return {"rows": rows}
+
+    def impl_grid(self, c):
+        urwid = U()["urwid"]
+        Spy = U()["Spy"]
+        cells = [Spy(("flow",), tag=i) for i in range(len(c["cells"]))]
+        gf = urwid.GridFlow([], c["cw"], c["hsep"], c["vsep"], "left")
+        for w, width in zip(cells, c["cells"]):
+            gf.contents.append((w, gf.options("given", width)))
+        if cells:
+            gf.focus_position = c["focus"]
+        return self.observe_grid(gf, c["maxcol"], False)
+
+    # ------------------------------------------------------------------ multi-step histories on ONE widget object
+    # The configuration in force at each layout step is computed from the case alone (seq_configs); the model is
+    # stateless and is asked once per layout (batch), the oracle judges every layout against its configuration.
+    @staticmethod
+    def colseq_configs(c):
+        opts = [list(o) for o in c["opts"]]
+        div, minw, focus = c["div"], c["minw"], c["focus"]
+        out = []
+        for st in c["steps"]:
+            op = st[0]
+            if op == "layout":
+                out.append({"k": "cols", "opts": [list(o) for o in opts], "div": div, "minw": minw, "focus": focus,
+                            "maxcol": st[1]})
+            elif op == "focus":
+                focus = st[1]
+            elif op == "setpack":
+                opts[st[1]][1] = st[2]
+            elif op == "setopt":
+                opts[st[1]] = [st[2], st[3]]
+            elif op == "append":
+                opts.append([st[1], st[2]])
+            elif op == "poplast":
+                opts.pop()
+            elif op == "div":
+                div = st[1]
+            elif op == "minw":
+                minw = st[1]
+            else:
+                raise core.MachineryError("unknown colseq step " + str(op))
+        return out
+
+    def impl_colseq(self, c):
+        urwid = U()["urwid"]
+        log = []
+        built = [self.col_child_id(k, a, log, i) for i, (k, a) in enumerate(c["opts"])]
+        cols = urwid.Columns([e for e, _w in built], dividechars=c["div"], min_width=c["minw"])
+        cols.focus_position = c["focus"]
+        cfgs = iter(self.colseq_configs(c))
+        layouts = []
+        for st in c["steps"]:
+            op = st[0]
+            if op == "layout":
+                layouts.append(self.observe_cols(cols, next(cfgs), log))
+            elif op == "focus":
+                cols.focus_position = st[1]
+            elif op == "setpack":
+                # the packed child changes its natural size (like Text.set_text): only the child is invalidated
+                w = cols.contents[st[1]][0]
+                if w.nat is not None:
+                    w.nat = st[2]
+                else:
+                    w.fixed = (st[2], 1)
+                w._invalidate()
+            elif op == "setopt":
+                entry, w = self.col_child_id(st[2], st[3], log, st[1])
+                cols.contents[st[1]] = (w, cols.options(*(("pack", None) if entry[0] == "pack" else (entry[0], entry[1]))))
+            elif op == "append":
+                entry, w = self.col_child_id(st[1], st[2], log, len(cols.contents))
+                cols.contents.append((w, cols.options(*(("pack", None) if entry[0] == "pack" else (entry[0], entry[1])))))
+            elif op == "poplast":
+                del cols.contents[-1]
+            elif op == "div":
+                # plain attributes: the documented way to have them take effect is to invalidate the widget
+                cols.dividechars = st[1]
+                cols._invalidate()
+            elif op == "minw":
+                cols.min_width = st[1]
+                cols._invalidate()
+        return {"layouts": layouts}
+
+    @staticmethod
+    def pileseq_configs(c):
+        opts = [list(o) for o in c["opts"]]
+        focus = c["focus"]
+        out = []
+        for st in c["steps"]:
+            op = st[0]
+            if op == "layout":
+                out.append({"k": "pile", "opts": [list(o) for o in opts], "maxcol": c["maxcol"], "maxrow": st[1], "focus": focus})
+            elif op == "focus":
+                focus = st[1]
+            elif op == "setpack":
+                opts[st[1]][1] = st[2]
+            elif op == "setopt":
+                opts[st[1]] = [st[2], st[3]]
+            elif op == "append":
+                opts.append([st[1], st[2]])
+            else:
+                raise core.MachineryError("unknown pileseq step " + str(op))
+        return out
+
+    def impl_pileseq(self, c):
+        urwid = U()["urwid"]
+        log = []
+        built = [self.pile_child(k, a, log, i) for i, (k, a) in enumerate(c["opts"])]
+        pile = urwid.Pile([e for e, _w in built])
+        pile.focus_position = c["focus"]
+        cfgs = iter(self.pileseq_configs(c))
+        layouts = []
+        for st in c["steps"]:
+            op = st[0]
+            if op == "layout":
+                layouts.append(self.observe_pile(pile, next(cfgs)))
+            elif op == "focus":
+                pile.focus_position = st[1]
+            elif op == "setpack":
+                w = pile.contents[st[1]][0]
+                if "fixed" in w.sizing():
+                    w.fixed = (w.fixed[0], st[2])
+                else:
+                    w.nrows = w.nrows_narrow = st[2]
+                w._invalidate()
+            elif op in ("setopt", "append"):
+                k, a = (st[2], st[3]) if op == "setopt" else (st[1], st[2])
+                entry, w = self.pile_child(k, a, log, 0)
+                o = pile.options(*(("pack", None) if entry[0] == "pack" else (entry[0], entry[1])))
+                if op == "setopt":
+                    pile.contents[st[1]] = (w, o)
+                else:
+                    pile.contents.append((w, o))
+        return {"layouts": layouts}
+
+    @staticmethod
+    def gridseq_configs(c):
+        cells = list(c["cells"])
+        cw, hsep, vsep, align, focus = c["cw"], c["hsep"], c["vsep"], c["align"], c["focus"]
+        out = []
+        for st in c["steps"]:
+            op = st[0]
+            if op == "layout":
+                out.append({"k": "grid", "cells": list(cells), "cw": cw, "hsep": hsep, "vsep": vsep, "maxcol": st[1],
+                            "focus": focus, "align": align})
+            elif op == "cw":
+                cw = st[1]
+                cells = [cw] * len(cells)          # "Setting this value affects all cells"
+            elif op == "hsep":
+                hsep = st[1]
+            elif op == "vsep":
+                vsep = st[1]
+            elif op == "align":
+                align = st[1]
+            elif op == "append":
+                cells.append(cw)                    # options() default = the configured cell width
+            elif op == "focus":
+                focus = st[1]
+            else:
+                raise core.MachineryError("unknown gridseq step " + str(op))
+        return out
+
+    def impl_gridseq(self, c):
+        urwid = U()["urwid"]
+        Spy = U()["Spy"]
+        gf = urwid.GridFlow([], c["cw"], c["hsep"], c["vsep"], c["align"])
+        for i, width in enumerate(c["cells"]):
+            gf.contents.append((Spy(("flow",), tag=i), gf.options("given", width)))
+        if c["cells"]:
+            gf.focus_position = c["focus"]
+        layouts = []
+        for st in c["steps"]:
+            op = st[0]
+            if op == "layout":
+                res = self.observe_grid(gf, st[1], True)
+                d = gf.get_display_widget((st[1],))
+                if "rows" in res and isinstance(d, urwid.Pile):
+                    aligns = {str(getattr(w.align, "value", w.align)) for w, _o in d.contents if isinstance(w, urwid.Padding)}
+                    res["align_ok"] = aligns <= {gf.align if isinstance(gf.align, str) else str(getattr(gf.align, "value", gf.align))}
+                else:
+                    res["align_ok"] = True
+                res["cell_width"] = gf.cell_width
+                layouts.append(res)
+            elif op == "cw":
+                gf.cell_width = st[1]
+            elif op == "hsep":
+                gf.h_sep = st[1]
+                gf._invalidate()
+            elif op == "vsep":
+                gf.v_sep = st[1]
+                gf._invalidate()
+            elif op == "align":
+                gf.align = st[1]
+                gf._invalidate()
+            elif op == "append":
+                gf.contents.append((Spy(("flow",), tag=len(gf.contents)), gf.options()))
+            elif op == "focus":
+                gf.focus_position = st[1]
+        return {"layouts": layouts}
+
+    SEQ = {"colseq": "colseq_configs", "pileseq": "pileseq_configs", "gridseq": "gridseq_configs"}
+
+    def seq_configs(self, c):
+        return getattr(self, self.SEQ[c["k"]])(c)
 
     # ------------------------------------------------------------------ wire format
     @staticmethod
@@ -369,7 +597,14 @@ class C19(core.Check):
         if k == "fill":
             return [7] + self.enc_fillcfg(c) + oz(c["maxrow"]) + [c["crows"]]
         if k == "ov":
-            return [8] + self.enc_padcfg(c) + self.enc_fillcfg(c) + [c["maxcol"], c["maxrow"], c["pw"], c["ph"], c["fr"]]
+            return [8] + self.enc_padcfg(c) + self.enc_fillcfg(c) + [c["maxcol"], c["maxrow"], c["pw"], c["ph"], c["fr"],
+                                                                      c.get("frn", c["fr"]), c.get("thr", 0)]
+        if k in self.SEQ:
+            out = [10]
+            for cfg in self.seq_configs(c):
+                sub = self.encode(cfg)
+                out += [len(sub)] + sub
+            return out
         if k == "grid":
             return [9, c["maxcol"], c["hsep"], len(c["cells"])] + list(c["cells"])
         raise core.MachineryError("unknown case kind " + str(k))
@@ -377,6 +612,22 @@ class C19(core.Check):
     def decode(self, c, ints):
         k = c["k"]
         bad = {"malformed": ints[:40]}
+        if k in self.SEQ:
+            layouts, pos = [], 0
+            try:
+                for cfg in self.seq_configs(c):
+                    n = ints[pos]
+                    sub = self.decode(cfg, ints[pos + 1:pos + 1 + n])
+                    pos += 1 + n
+                    if k == "gridseq" and "rows" in sub:
+                        sub["align_ok"] = True
+                        sub["cell_width"] = cfg["cw"]
+                    if "err" in sub:
+                        return sub           # the implementation result of a history that raised is {"err": ...}
+                    layouts.append(sub)
+            except IndexError:
+                return bad
+            return {"layouts": layouts}
         if not ints or ints[0] not in (0, 1):
             if k != "grid":
                 return bad
@@ -410,7 +661,9 @@ class C19(core.Check):
                 return {"tb": [t, b], "child": child}
             if k == "ov":
                 n = ints[5]
-                return {"lrtb": ints[1:5], "tws": ints[6:6 + n]}
+                l_, r_ = ints[1:3]
+                asked = (c["maxcol"] - l_ - r_) if (c["wt"] != "pack" and c["ht"] == "pack") else None
+                return {"lrtb": ints[1:5], "tws": ints[6:6 + n], "rows_asked_at": asked}
             if k == "grid":
                 it = iter(ints)
                 nrows = next(it)
@@ -427,9 +680,29 @@ class C19(core.Check):
 
     # ------------------------------------------------------------------ oracle (from the property text)
     def oracle(self, c, res):
+        if c["k"] in self.SEQ:
+            return self.oracle_seq(c, res)
         if "err" in res:
             return self.oracle_err(c, res)
         return getattr(self, "oracle_" + c["k"])(c, res)
+
+    def oracle_seq(self, c, res):
+        """Every layout of a history is judged like a fresh layout of the configuration then in force: what the widget did
+        before (earlier layouts, focus moves, children that changed size, reconfiguration) must not show."""
+        cfgs = self.seq_configs(c)
+        if "err" in res:
+            if all(self.cols_in_statement(cfg) for cfg in cfgs if cfg["k"] in ("cols", "pile")) and \
+                    all(any(kk == "weight" for kk, _ in cfg["opts"]) for cfg in cfgs if cfg["k"] == "pile"):
+                return [f"{c['k']}: raised {res['err']} during a history inside the statement"]
+            return []
+        msgs = []
+        for n, (cfg, sub) in enumerate(zip(cfgs, res["layouts"])):
+            for m in self.oracle(cfg, sub):
+                msgs.append(f"layout#{n} of a history: {m}")
+            if cfg["k"] == "grid" and "rows" in sub:
+                if sub.get("cell_width") != cfg["cw"]:
+                    msgs.append(f"layout#{n} of a history: grid: cell_width reads {sub.get('cell_width')}, configured {cfg['cw']}")
+        return msgs
 
     def oracle_err(self, c, res):
         k = c["k"]
@@ -441,7 +714,7 @@ class C19(core.Check):
 
     @staticmethod
     def cols_in_statement(c):
-        ok = all((k in ("given",) and a >= 1) or (k in ("pack", "packflow") and a >= 0) or (k == "weight" and a >= 1)
+        ok = all((k in ("given",) and a >= 1) or (k in ("pack", "packflow", "packfixed") and a >= 0) or (k == "weight" and a >= 1)
                  for k, a in c["opts"])
         if c["k"] == "cols":
             return ok and c["opts"] and c["div"] >= 0 and c["minw"] >= 0 and c["maxcol"] >= 0
@@ -587,6 +860,10 @@ class C19(core.Check):
         l, r, t, b = res["lrtb"]
         tws = res["tws"]
         msgs = []
+        if c["wt"] != "pack" and c["ht"] == "pack":
+            # the flow top widget's height depends on the width it is rendered with
+            c = dict(c)
+            c["fr"] = c.get("frn", c["fr"]) if (c["maxcol"] - l - r) < c.get("thr", 0) else c["fr"]
         if c["maxcol"] < 0 or c["maxrow"] < 0:
             return msgs
         fixed = c["wt"] == "pack"
@@ -736,6 +1013,10 @@ class C19(core.Check):
     def nontrivial(self, c, res):
         if "err" in res:
             return False
+        if c["k"] in self.SEQ:
+            subs = res["layouts"]
+            # a history is non-trivial when two of its layouts differ (something the widget had to recompute)
+            return len({core.canon(x) for x in subs}) > 1
         for key in ("widths", "rows", "lr", "tb", "lrtb"):
             if key in res:
                 v = res[key]
@@ -750,6 +1031,21 @@ class C19(core.Check):
     def distribution(self, c, res, dist):
         k = c["k"]
         inc(dist, "kind:" + k)
+        if k in self.SEQ:
+            for st in c["steps"]:
+                inc(dist, f"{k}:step:{st[0]}")
+            if "err" in res:
+                inc(dist, f"{k}:err:{res['err']}")
+            elif k == "colseq":
+                cfgs = self.seq_configs(c)
+                for a, b, ra, rb in zip(cfgs, cfgs[1:], res["layouts"], res["layouts"][1:]):
+                    if a["maxcol"] == b["maxcol"]:
+                        inc(dist, "colseq:relayout-at-same-width")
+                        if ra != rb:
+                            inc(dist, "colseq:relayout-at-same-width-changed-the-widths")
+                        if a["focus"] != b["focus"] and len(ra["widths"]) < len(a["opts"]) and b["focus"] >= len(ra["widths"]):
+                            inc(dist, "colseq:focus-moved-onto-a-cut-off-column")
+            return
         if "err" in res:
             inc(dist, f"{k}:err:{res['err']}")
             return
@@ -845,11 +1141,11 @@ class C19(core.Check):
         n = rng.choice([1, 2, 3, 3, 4, 4, 5, 6])
         opts = []
         for _ in range(n):
-            k = rng.choice(["given", "pack", "weight", "weight", "weight"])
+            k = rng.choice(["given", "pack", "packfixed", "weight", "weight", "weight"])
             if k == "weight":
                 a = rng.choice([1, 1, 2, 3, 5, 7, 9, 10, 100, 10 ** 6, rng.randint(1, 10 ** 6)])
             else:
-                a = self.bint(rng, 30, 0 if k == "pack" else 1)
+                a = self.bint(rng, 30, 1 if k == "given" else 0)
             opts.append([k, a])
         maxrow = self.bint(rng, 10 ** 4 if rng.random() < 0.1 else 60, 0)
         return {"k": "pile", "opts": opts, "maxcol": rng.choice([1, 5, 20]), "maxrow": maxrow, "focus": rng.randrange(n)}
@@ -922,7 +1218,7 @@ class C19(core.Check):
         return {"k": "ov", "at": at, "aa": aa, "wt": wt, "wa": wa or 0, "minw": mn, "left": lo, "right": hi,
                 "vt": vt, "va": va, "ht": ht, "ha": ha or 0, "minh": mh, "top": top, "bottom": bot,
                 "maxcol": t, "maxrow": t2, "pw": self.bint(rng, 60, 0), "ph": rng.choice([0, 1, 1, 2, 5, self.bint(rng, 60, 0)]),
-                "fr": self.bint(rng, 60, 0)}
+                "fr": self.bint(rng, 60, 0), "frn": self.bint(rng, 60, 0), "thr": rng.choice([0, 0, 1, 3, t, t + 1, self.bint(rng, 60, 0)])}
 
     def random_grid(self, rng):
         n = rng.choice([0, 1, 2, 3, 5, 8, 13])
@@ -930,6 +1226,157 @@ class C19(core.Check):
         cells = [cw if rng.random() < 0.8 else rng.choice([1, 2, 7, 20]) for _ in range(n)]
         return {"k": "grid", "cells": cells, "cw": cw, "hsep": rng.choice([0, 1, 1, 2, 3]), "vsep": rng.choice([0, 1, 2]),
                 "maxcol": self.bint(rng, 60, 1), "focus": rng.randrange(n) if n else 0}
+
+    # ---- multi-step histories
+    def seq_valid(self, c):
+        """indices used by the steps are in range for the configuration then in force; at least one layout"""
+        try:
+            k = c["k"]
+            n = len(c["opts"]) if k != "gridseq" else len(c["cells"])
+            if n == 0 and k != "gridseq":
+                return False
+            focus = c["focus"]
+            if n and not (0 <= focus < n):
+                return False
+            kinds = [o[0] for o in c["opts"]] if k != "gridseq" else None
+            layouts = 0
+            for st in c["steps"]:
+                op = st[0]
+                if op == "layout":
+                    layouts += 1
+                elif op == "focus":
+                    if not (0 <= st[1] < n):
+                        return False
+                    focus = st[1]
+                elif op == "setpack":
+                    if not (0 <= st[1] < n) or not kinds[st[1]].startswith("pack"):
+                        return False
+                elif op == "setopt":
+                    if not (0 <= st[1] < n):
+                        return False
+                    kinds[st[1]] = st[2]
+                elif op == "append":
+                    n += 1
+                    if kinds is not None:
+                        kinds.append(st[1])
+                elif op == "poplast":
+                    if n < 2 or focus >= n - 1:
+                        return False
+                    n -= 1
+                    kinds.pop()
+            return layouts >= 1
+        except (KeyError, IndexError, TypeError):
+            return False
+
+    def focus_move_histories(self, alphabet, maxcols, divs, minws):
+        """lay out, move the focus, lay out again at the same width: every 3-column list, every focus pair"""
+        for opts in itertools.product(alphabet, repeat=3):
+            o = [list(x) for x in opts]
+            for div in divs:
+                for minw in minws:
+                    for maxcol in maxcols:
+                        for f0 in range(3):
+                            for f1 in range(3):
+                                if f0 != f1:
+                                    yield {"k": "colseq", "opts": o, "div": div, "minw": minw, "focus": f0,
+                                           "steps": [["layout", maxcol], ["focus", f1], ["layout", maxcol]]}
+
+    def random_colseq(self, rng):
+        base = self.random_cols(rng)
+        opts = [list(o) for o in base["opts"]]
+        n = len(opts)
+        focus = base["focus"]
+        maxcol = base["maxcol"]
+        if rng.random() < 0.6:
+            # a width at which some trailing columns are cut off / some leading ones dropped
+            nat = sum(a if k != "weight" else base["minw"] for k, a in opts) + base["div"] * (n - 1)
+            maxcol = max(1, nat - rng.randint(0, max(1, nat // 2)))
+        kinds = [o[0] for o in opts]
+        steps = [["layout", maxcol]]
+        for _ in range(rng.choice([1, 2, 2, 3, 4])):
+            r = rng.random()
+            packs = [i for i, k in enumerate(kinds) if k.startswith("pack")]
+            if r < 0.35:
+                focus = rng.choice([n - 1, 0, rng.randrange(n), rng.randrange(n)])
+                steps.append(["focus", focus])
+            elif r < 0.6 and packs:
+                steps.append(["setpack", rng.choice(packs), self.bint(rng, 30, 0)])
+            elif r < 0.7:
+                i = rng.randrange(n)
+                k = rng.choice(["given", "pack", "packflow", "weight"])
+                a = rng.choice([1, 2, 3, 7]) if k == "weight" else self.bint(rng, 20, 1 if k == "given" else 0)
+                steps.append(["setopt", i, k, a])
+                kinds[i] = k
+            elif r < 0.78:
+                k = rng.choice(["given", "pack", "weight"])
+                steps.append(["append", k, rng.choice([1, 2, 5])])
+                kinds.append(k)
+                n += 1
+            elif r < 0.84 and n >= 2 and focus < n - 1:
+                steps.append(["poplast"])
+                kinds.pop()
+                n -= 1
+            elif r < 0.9:
+                steps.append(["div", rng.choice([0, 1, 2, 3])])
+            elif r < 0.95:
+                steps.append(["minw", rng.choice([1, 2, 3, 5])])
+            # lay out again, mostly at the same width (that is where a cache shows)
+            steps.append(["layout", maxcol if rng.random() < 0.8 else max(0, maxcol + rng.randint(-3, 3))])
+        return {"k": "colseq", "opts": opts, "div": base["div"], "minw": base["minw"], "focus": base["focus"], "steps": steps}
+
+    def random_pileseq(self, rng):
+        base = self.random_pile(rng)
+        opts = [list(o) for o in base["opts"]]
+        n = len(opts)
+        kinds = [o[0] for o in opts]
+        maxrow = base["maxrow"]
+        steps = [["layout", maxrow]]
+        for _ in range(rng.choice([1, 2, 3])):
+            r = rng.random()
+            packs = [i for i, k in enumerate(kinds) if k.startswith("pack")]
+            if r < 0.3:
+                steps.append(["focus", rng.randrange(n)])
+            elif r < 0.6 and packs:
+                steps.append(["setpack", rng.choice(packs), self.bint(rng, 20, 0)])
+            elif r < 0.8:
+                i = rng.randrange(n)
+                k = rng.choice(["given", "pack", "packfixed", "weight"])
+                steps.append(["setopt", i, k, rng.choice([1, 2, 3, 7]) if k == "weight" else self.bint(rng, 12, 1 if k == "given" else 0)])
+                kinds[i] = k
+            else:
+                k = rng.choice(["given", "weight"])
+                steps.append(["append", k, rng.choice([1, 2, 5])])
+                kinds.append(k)
+                n += 1
+            steps.append(["layout", maxrow if rng.random() < 0.8 else max(0, maxrow + rng.randint(-3, 3))])
+        return {"k": "pileseq", "opts": opts, "maxcol": base["maxcol"], "maxrow": maxrow, "focus": base["focus"], "steps": steps}
+
+    def random_gridseq(self, rng):
+        n = rng.choice([1, 2, 3, 5, 8])
+        cw = rng.choice([1, 2, 3, 5, 10])
+        cells = [cw if rng.random() < 0.85 else rng.choice([1, 2, 7]) for _ in range(n)]
+        maxcol = self.bint(rng, 40, 1)
+        steps = []
+        if rng.random() < 0.7:
+            steps.append(["layout", maxcol])
+        for _ in range(rng.choice([1, 1, 2, 3])):
+            r = rng.random()
+            if r < 0.45:
+                steps.append(["cw", rng.choice([1, 2, 3, 4, 6, 9, 15])])
+            elif r < 0.6:
+                steps.append(["hsep", rng.choice([0, 1, 2, 3])])
+            elif r < 0.7:
+                steps.append(["vsep", rng.choice([0, 1, 2])])
+            elif r < 0.8:
+                steps.append(["align", rng.choice(["left", "center", "right"])])
+            elif r < 0.9:
+                steps.append(["append"])
+                n += 1
+            else:
+                steps.append(["focus", rng.randrange(n)])
+            steps.append(["layout", maxcol if rng.random() < 0.8 else self.bint(rng, 40, 1)])
+        return {"k": "gridseq", "cells": cells, "cw": cw, "hsep": rng.choice([0, 1, 1, 2]), "vsep": rng.choice([0, 1, 2]),
+                "align": rng.choice(["left", "center", "right"]), "focus": rng.randrange(n) if cells else 0, "steps": steps}
 
     def exhaustive_axis(self, horizontal, totals, amounts, margins):
         aligns = [("left", None), ("center", None), ("right", None), ("relative", 0), ("relative", 30), ("relative", 75),
@@ -1012,12 +1459,33 @@ class C19(core.Check):
             yield self.random_ov(rng)
         for _ in range(600 if quick else 10000):
             yield self.random_grid(rng)
+        # --- multi-step histories on one widget object (width caches, focus moves, children changing size, setters)
+        small3 = [("given", 2), ("given", 5), ("pack", 3), ("weight", 1), ("weight", 3)]
+        if quick:
+            yield from self.focus_move_histories(small3, (4, 7), (1,), (1,))
+        else:
+            yield from self.focus_move_histories(small3, range(1, 13), (0, 1, 2), (1, 2))
+        for _ in range(2500 if quick else 50000):
+            c = self.random_colseq(rng)
+            if self.seq_valid(c):
+                yield c
+        for _ in range(600 if quick else 10000):
+            c = self.random_pileseq(rng)
+            if self.seq_valid(c):
+                yield c
+        for _ in range(900 if quick else 15000):
+            c = self.random_gridseq(rng)
+            if self.seq_valid(c):
+                yield c
 
     def search_cases(self, rng, tier):
         yield from self.exhaustive_cols(3, self.col_alphabet(small=True), range(0, 13), (0, 1, 2), (0, 1, 2, 3))
         yield from self.exhaustive_axis(True, range(0, 13), (0, 1, 2, 4, 7, 9, 10, 13), (0, 1, 3))
         yield from self.exhaustive_axis(False, range(0, 13), (0, 1, 2, 4, 7, 9, 10, 13), (0, 1, 3))
         while True:
+            for c in (self.random_colseq(rng), self.random_pileseq(rng), self.random_gridseq(rng)):
+                if self.seq_valid(c):
+                    yield c
             yield self.random_cols(rng)
             yield self.random_pile(rng)
             yield self.random_clrp(rng)
@@ -1029,6 +1497,30 @@ class C19(core.Check):
 
     def shrink_candidates(self, c):
         k = c["k"]
+        if k in self.SEQ:
+            steps = c["steps"]
+            for i in range(len(steps)):
+                d = dict(c)
+                d["steps"] = steps[:i] + steps[i + 1:]
+                if self.seq_valid(d):
+                    yield d
+            key = "cells" if k == "gridseq" else "opts"
+            if len(c[key]) > 1:
+                d = dict(c)
+                d[key] = c[key][:-1]
+                if self.seq_valid(d):
+                    yield d
+            for i, st in enumerate(steps):
+                if st[0] == "layout" and st[1] > 1:
+                    for v in (st[1] // 2, st[1] - 1):
+                        d = dict(c)
+                        d["steps"] = [list(x) for x in steps]
+                        for x in d["steps"]:
+                            if x[0] == "layout" and x[1] == st[1]:
+                                x[1] = v
+                        yield d
+                    break
+            return
         if k in ("cols", "pile"):
             opts = c["opts"]
             for i in range(len(opts)):
